@@ -157,7 +157,7 @@ func checkC20(c *Ctx, r *Report) {
 				continue
 			}
 			n++
-			r.Check(allowedCallers[funcName(cs.Caller)], r3, cs.Caller, "Queue."+m, cs.Instr, "tabled caller", "Queue."+m+" is called from "+funcName(cs.Caller)+", outside the frozen set of callers for which the once-per-torrent discipline was confirmed")
+			r.Check(callerAllowed(c, topFunc(cs.Caller), allowedCallers, 0), r3, cs.Caller, "Queue."+m, cs.Instr, "tabled caller", "Queue."+m+" is called from "+funcName(cs.Caller)+", outside the frozen set of callers for which the once-per-torrent discipline was confirmed")
 		}
 		if n == 0 {
 			r.Unresolved(r3, "no call of Queue."+m)
